@@ -342,7 +342,7 @@ func runC08(c *core.Ctx) {
 	c08NameProbes(c)
 	c08LateRegistration(c)
 	_ = k
-	c.R.Bound = "49 membership variants x 7 abstract bases x 5 binding modes x 2 graphs; mutation depth per variant: quick 0 (9 corner variants 1), thorough 1 (default variant 2); + all ordered request pairs on one root (10 x 7 documents) and every single implements / union-member extension loaded between requests, for the 9 corner variants (thorough: all 49); + Go type names containing one another x 5 bindings x all member and value orders; + every sequence <= 5 (thorough 7) of 3 requests and 2 RegisterType calls on one root (types that bind by registration only)"
+	c.R.Bound = "49 membership variants x 7 abstract bases x 5 binding modes x 2 graphs; mutation depth per variant: quick 0 (9 corner variants 1), thorough 1 (default variant 2); + all ordered request pairs on one root (10 x 7 documents) and every single implements / union-member extension loaded between requests, for the 9 corner variants (thorough: all 49); + Go type names containing one another x 5 bindings x all member and value orders x {SDL, AddTypes} x {union first, interface first}; + every sequence <= 5 (thorough 7) of 3 requests and 2 RegisterType calls on one root (types that bind by registration only)"
 	if !completed {
 		c.Cap("deadline reached")
 	}
@@ -378,107 +378,113 @@ func c08NameProbes(c *core.Ctx) {
 		for _, mperm := range permutations(3) {
 			for _, dperm := range permutations(3) {
 				for _, route := range []string{"sdl", "addtypes"} {
-					idx++
-					if !c.OwnsIdx(idx) {
-						continue
-					}
-					c.Eval()
-					c.R.Distinct++
-					c.Nontrivial()
-					var sdl strings.Builder
-					sdl.WriteString("type Query { cats: [Cats] beasts: [Beast] }\ninterface Beast { name: String }\n")
-					for _, n := range names {
-						god := ""
-						switch b {
-						case "go-short":
-							god = fmt.Sprintf(" @go(type: %q)", n)
-						case "go-pkg":
-							god = fmt.Sprintf(" @go(type: %q)", "props."+n)
-						case "go-full":
-							god = fmt.Sprintf(" @go(type: %q)", "verif/mc/props."+n)
+					for _, beastsFirst := range []bool{false, true} {
+						idx++
+						if !c.OwnsIdx(idx) {
+							continue
 						}
-						fmt.Fprintf(&sdl, "type %s implements Beast%s { name: String }\n", n, god)
-					}
-					fmt.Fprintf(&sdl, "union Cats = %s | %s | %s\n", names[mperm[0]], names[mperm[1]], names[mperm[2]])
-					q := &c08NQuery{}
-					var want []interface{}
-					for _, di := range dperm {
-						q.Cats = append(q.Cats, mk(names[di]))
-						q.Beasts = append(q.Beasts, mk(names[di]))
-						want = append(want, map[string]interface{}{"__typename": names[di], "name": val[names[di]]})
-					}
-					root := ggql.NewRoot(&c08NRoot{Query: q})
-					if route == "sdl" {
-						if err := root.ParseString(sdl.String()); err != nil {
-							panic(core.EngineError{Msg: "C08 name probe schema refused: " + err.Error()})
-						}
-					} else {
-						// the same schema built with the Go API and handed over by AddTypes (nothing the SDL parser fills in is there)
-						ref := func(n string) ggql.Type { return &ggql.Ref{Base: ggql.Base{N: n}} }
-						nameField := func() *ggql.FieldDef { return &ggql.FieldDef{Base: ggql.Base{N: "name"}, Type: ref("String")} }
-						beast := &ggql.Interface{Base: ggql.Base{N: "Beast"}}
-						_ = beast.AddField(nameField())
-						cats := &ggql.Union{Base: ggql.Base{N: "Cats"}}
-						for _, mi := range mperm {
-							cats.Members = append(cats.Members, ref(names[mi]))
-						}
-						qt := &ggql.Object{Base: ggql.Base{N: "Query"}}
-						_ = qt.AddField(&ggql.FieldDef{Base: ggql.Base{N: "cats"}, Type: &ggql.List{Base: ref("Cats")}})
-						_ = qt.AddField(&ggql.FieldDef{Base: ggql.Base{N: "beasts"}, Type: &ggql.List{Base: ref("Beast")}})
-						types := []ggql.Type{qt, beast, cats}
+						c.Eval()
+						c.R.Distinct++
+						c.Nontrivial()
+						var sdl strings.Builder
+						sdl.WriteString("type Query { cats: [Cats] beasts: [Beast] }\ninterface Beast { name: String }\n")
 						for _, n := range names {
-							o := &ggql.Object{Base: ggql.Base{N: n}}
+							god := ""
 							switch b {
 							case "go-short":
-								o.Dirs = []*ggql.DirectiveUse{{Directive: ref("go"), Args: map[string]*ggql.ArgValue{"type": {Arg: "type", Value: n}}}}
+								god = fmt.Sprintf(" @go(type: %q)", n)
 							case "go-pkg":
-								o.Dirs = []*ggql.DirectiveUse{{Directive: ref("go"), Args: map[string]*ggql.ArgValue{"type": {Arg: "type", Value: "props." + n}}}}
+								god = fmt.Sprintf(" @go(type: %q)", "props."+n)
 							case "go-full":
-								o.Dirs = []*ggql.DirectiveUse{{Directive: ref("go"), Args: map[string]*ggql.ArgValue{"type": {Arg: "type", Value: "verif/mc/props." + n}}}}
+								god = fmt.Sprintf(" @go(type: %q)", "verif/mc/props."+n)
 							}
-							o.Interfaces = append(o.Interfaces, ref("Beast"))
-							_ = o.AddField(nameField())
-							types = append(types, o)
+							fmt.Fprintf(&sdl, "type %s implements Beast%s { name: String }\n", n, god)
 						}
-						if err := root.AddTypes(types...); err != nil {
-							panic(core.EngineError{Msg: "C08 name probe schema refused by AddTypes: " + err.Error()})
+						fmt.Fprintf(&sdl, "union Cats = %s | %s | %s\n", names[mperm[0]], names[mperm[1]], names[mperm[2]])
+						q := &c08NQuery{}
+						var want []interface{}
+						for _, di := range dperm {
+							q.Cats = append(q.Cats, mk(names[di]))
+							q.Beasts = append(q.Beasts, mk(names[di]))
+							want = append(want, map[string]interface{}{"__typename": names[di], "name": val[names[di]]})
 						}
-					}
-					if b == "register" {
-						for _, n := range names {
-							if err := root.RegisterType(mk(n), n); err != nil {
-								panic(core.EngineError{Msg: err.Error()})
+						root := ggql.NewRoot(&c08NRoot{Query: q})
+						if route == "sdl" {
+							if err := root.ParseString(sdl.String()); err != nil {
+								panic(core.EngineError{Msg: "C08 name probe schema refused: " + err.Error()})
+							}
+						} else {
+							// the same schema built with the Go API and handed over by AddTypes (nothing the SDL parser fills in is there)
+							ref := func(n string) ggql.Type { return &ggql.Ref{Base: ggql.Base{N: n}} }
+							nameField := func() *ggql.FieldDef { return &ggql.FieldDef{Base: ggql.Base{N: "name"}, Type: ref("String")} }
+							beast := &ggql.Interface{Base: ggql.Base{N: "Beast"}}
+							_ = beast.AddField(nameField())
+							cats := &ggql.Union{Base: ggql.Base{N: "Cats"}}
+							for _, mi := range mperm {
+								cats.Members = append(cats.Members, ref(names[mi]))
+							}
+							qt := &ggql.Object{Base: ggql.Base{N: "Query"}}
+							_ = qt.AddField(&ggql.FieldDef{Base: ggql.Base{N: "cats"}, Type: &ggql.List{Base: ref("Cats")}})
+							_ = qt.AddField(&ggql.FieldDef{Base: ggql.Base{N: "beasts"}, Type: &ggql.List{Base: ref("Beast")}})
+							types := []ggql.Type{qt, beast, cats}
+							for _, n := range names {
+								o := &ggql.Object{Base: ggql.Base{N: n}}
+								switch b {
+								case "go-short":
+									o.Dirs = []*ggql.DirectiveUse{{Directive: ref("go"), Args: map[string]*ggql.ArgValue{"type": {Arg: "type", Value: n}}}}
+								case "go-pkg":
+									o.Dirs = []*ggql.DirectiveUse{{Directive: ref("go"), Args: map[string]*ggql.ArgValue{"type": {Arg: "type", Value: "props." + n}}}}
+								case "go-full":
+									o.Dirs = []*ggql.DirectiveUse{{Directive: ref("go"), Args: map[string]*ggql.ArgValue{"type": {Arg: "type", Value: "verif/mc/props." + n}}}}
+								}
+								o.Interfaces = append(o.Interfaces, ref("Beast"))
+								_ = o.AddField(nameField())
+								types = append(types, o)
+							}
+							if err := root.AddTypes(types...); err != nil {
+								panic(core.EngineError{Msg: "C08 name probe schema refused by AddTypes: " + err.Error()})
 							}
 						}
-					}
-					text := "{cats{__typename ... on Lynx{name} ... on SnowLynx{name} ... on LynxCub{name}} beasts{__typename name ... on LynxCub{n2: name}}}"
-					var res map[string]interface{}
-					pi := core.Safe(func() { res = root.ResolveString(text, "", nil) })
-					detail := map[string]interface{}{"sdl": sdl.String(), "route": route, "query": text, "go_values_in_order": fmt.Sprint(dperm), "binding": b}
-					if pi != nil {
-						c.Violation("panic", map[string]string{"site": pi.Site, "class": pi.Class, "part": "names"}, detail)
-						continue
-					}
-					wantB := make([]interface{}, len(want))
-					for i, w := range want {
-						m := map[string]interface{}{}
-						for k, v := range w.(map[string]interface{}) {
-							m[k] = v
+						if b == "register" {
+							for _, n := range names {
+								if err := root.RegisterType(mk(n), n); err != nil {
+									panic(core.EngineError{Msg: err.Error()})
+								}
+							}
 						}
-						if m["__typename"] == "LynxCub" {
-							m["n2"] = m["name"]
+						// the interface list first on every other case: its values then meet a root that has bound nothing yet
+						text := "{cats{__typename ... on Lynx{name} ... on SnowLynx{name} ... on LynxCub{name}} beasts{__typename name ... on LynxCub{n2: name}}}"
+						if idx%2 == 0 {
+							text = "{beasts{__typename name ... on LynxCub{n2: name}} cats{__typename ... on Lynx{name} ... on SnowLynx{name} ... on LynxCub{name}}}"
 						}
-						wantB[i] = m
+						var res map[string]interface{}
+						pi := core.Safe(func() { res = root.ResolveString(text, "", nil) })
+						detail := map[string]interface{}{"sdl": sdl.String(), "route": route, "query": text, "go_values_in_order": fmt.Sprint(dperm), "binding": b}
+						if pi != nil {
+							c.Violation("panic", map[string]string{"site": pi.Site, "class": pi.Class, "part": "names"}, detail)
+							continue
+						}
+						wantB := make([]interface{}, len(want))
+						for i, w := range want {
+							m := map[string]interface{}{}
+							for k, v := range w.(map[string]interface{}) {
+								m[k] = v
+							}
+							if m["__typename"] == "LynxCub" {
+								m["n2"] = m["name"]
+							}
+							wantB[i] = m
+						}
+						wantData := map[string]interface{}{"cats": want, "beasts": wantB}
+						got := world.Canon(res["data"])
+						if dd := world.Diff(world.Canon(wantData), got, ""); dd != "" || res["errors"] != nil {
+							c.Outcome("names-diff")
+							detail["diff"], detail["errors"], detail["data"] = dd, res["errors"], got
+							c.Violation("data-diff", map[string]string{"part": "names", "binding": b, "route": route}, detail)
+							continue
+						}
+						c.Outcome("names-agree")
 					}
-					wantData := map[string]interface{}{"cats": want, "beasts": wantB}
-					got := world.Canon(res["data"])
-					if dd := world.Diff(world.Canon(wantData), got, ""); dd != "" || res["errors"] != nil {
-						c.Outcome("names-diff")
-						detail["diff"], detail["errors"], detail["data"] = dd, res["errors"], got
-						c.Violation("data-diff", map[string]string{"part": "names", "binding": b, "route": route}, detail)
-						continue
-					}
-					c.Outcome("names-agree")
 				}
 			}
 		}
